@@ -65,6 +65,9 @@ func Sets() []BlobSet {
 		{Name: "content-file", Canon: []hs.Blob{a.Pub, ch1, plain, pn, content}},
 		{Name: "key-never-arrives", Canon: []hs.Blob{pn, c1}, Absent: []hs.Blob{a.Pub}},
 		{Name: "chunk-never-arrives", Canon: []hs.Blob{ch1, bytesBlob, nested}, Absent: []hs.Blob{ch2}},
+		// a delete claim whose target never arrives stays partially stored; a delete of that
+		// delete claim only needs its meta row and must be indexed completely in either order
+		{Name: "delete-chain-target-never-arrives", Canon: []hs.Blob{a.Pub, d1, d2}, Absent: []hs.Blob{c1}},
 		{Name: "opaque+share", Canon: []hs.Blob{a.Pub, opaque, share}},
 		{Name: "two-signers", Canon: []hs.Blob{a.Pub, b.Pub, pn, c1, cB}},
 	}
